@@ -3,7 +3,7 @@
    Model: Model/Ty.v (tord = typeorder with fuel; [Some r] = answered).  Domain predicate: Model/TyDom.v (msym). *)
 From Coq Require Import ZArith List Bool Arith.
 Import ListNotations.
-From OvldV Require Import Model.Order Model.Ty Model.TyDom Model.Codec Proofs.TyEq Proofs.TyMono Proofs.TyOrder Gen.Leaf Proofs.LeafOrder Proofs.TyTotal.
+From OvldV Require Import Model.Order Model.Ty Model.TyDom Model.Codec Proofs.TyEq Proofs.TyMono Proofs.TyOrder Gen.Leaf Proofs.LeafOrder Proofs.TyTotal Proofs.TyAgree.
 
 Definition Antisym (sub : nat -> nat -> bool) := forall c d, sub c d = true -> sub d c = true -> c = d.
 Definition Trans (sub : nat -> nat -> bool) := forall a b c, sub a b = true -> sub b c = true -> sub a c = true.
@@ -72,6 +72,20 @@ Theorem C12_classes_trans : forall sub, Antisym sub -> Trans sub ->
   forall a b c, cls_order sub a b = LESS -> cls_order sub b c = LESS -> cls_order sub a c = LESS.
 Proof. exact cls_order_trans. Qed.
 Print Assumptions C12_classes_trans.
+
+(* at the public entry points (fuel chosen by the model) the order and the subtype test agree on classes:
+   strictly more specific = proper subclass; a class not under another is never more specific than it *)
+Definition Refl (sub : nat -> nat -> bool) := forall c, sub c c = true.
+Theorem C12_less_is_proper_subclass : forall sub hasm chk fresh, Refl sub -> Antisym sub -> forall c d,
+  typeorder sub hasm chk fresh (Cls c) (Cls d) = Some LESS <->
+  (subclasscheck sub hasm chk fresh (Cls c) (Cls d) = Some true /\ c <> d).
+Proof. exact typeorder_less_is_proper_subclass. Qed.
+Print Assumptions C12_less_is_proper_subclass.
+
+Theorem C12_not_less_when_not_subclass : forall sub hasm chk fresh, Refl sub -> Antisym sub -> forall c d,
+  subclasscheck sub hasm chk fresh (Cls c) (Cls d) = Some false -> typeorder sub hasm chk fresh (Cls c) (Cls d) <> Some LESS.
+Proof. exact typeorder_not_less_when_not_subclass. Qed.
+Print Assumptions C12_not_less_when_not_subclass.
 
 (* a parametrised generic is more specific than its origin and compares argument-wise *)
 Theorem C12_generic_origin : forall sub hasm chk fresh n o a,
